@@ -5921,3 +5921,39 @@ func ruleLoadedRulesReachTheWalk(id string) func(*Checker) {
 		}
 	}
 }
+
+// ---- round 26 ----
+
+// ruleDependenciesBaseIsTheArtifact — relative dependencies are resolved against the address that was analysed.
+func ruleDependenciesBaseIsTheArtifact(id string) func(*Checker) {
+	return func(c *Checker) {
+		c.rule(id, "Where the builder makes the Dependencies value it hands to a finder, the base address for relative sources is the source address of the artifact being analysed (a read of its sourceAddr field), sub-path included — not the package's root address built from it. A finder analysing pkg//modules/a that reports ./child means pkg//modules/a/child; resolved against the package root it becomes pkg//child, the wrong directory is analysed, and what the child depends on never reaches the bundle.", 1)
+		p := c.P
+		n := 0
+		for _, fn := range p.Funcs {
+			if !inBundlePkg(p, fn) || fn.Blocks == nil {
+				continue
+			}
+			eachInstr(fn, func(in ssa.Instruction) {
+				st, ok := in.(*ssa.Store)
+				if !ok {
+					return
+				}
+				fa, ok := st.Addr.(*ssa.FieldAddr)
+				if !ok || fieldOf(fa) == nil || fieldOf(fa).Name() != "baseAddr" || !isNamedT(derefType(fa.X.Type()), "Dependencies") {
+					return
+				}
+				n++
+				v := canon(st.Val)
+				if mi, ok := v.(*ssa.MakeInterface); ok {
+					v = canon(mi.X)
+				}
+				f := loadedField(v)
+				c.check(f != nil && f.Name() == "sourceAddr", id, p.FuncName(fn), "base address is the artifact's own", p.Pos(st.Pos()), "baseAddr is a read of the artifact's sourceAddr", "the base address for relative dependencies is "+v.String()+", not the source address of the artifact being analysed: a relative dependency of a module in a sub-directory is resolved against another directory")
+			})
+		}
+		if n == 0 {
+			c.anchorMissing(id, "the Dependencies value made for a finder")
+		}
+	}
+}
